@@ -554,6 +554,56 @@ def dumpArith (o : Opts) (startByte : Int) : Outcome Unit :=
 def dump (o : Opts) (startByte : Int) : Outcome Unit :=
   (dumpHeader o.lineBytes).bind fun _ => dumpArith o startByte
 
+/-! ## previewValue, string case (preview.go:31-37): the one-line preview of the tree dump
+
+      runeLength := utf8.RuneCountInString(vv)
+      if opts.StringTruncate != 0 && runeLength > opts.StringTruncate {
+          runes := []rune(vv)
+          vv = string(runes[0:opts.StringTruncate])
+      }
+
+    The slice is taken of the RUNES, so the test must count RUNES.  A string has at least as many
+    bytes as runes (1 to 4 bytes per code point, 1 per invalid byte), and the two differ for
+    every non-ASCII string: 30 x "å" has 60 bytes and 30 runes. -/
+
+/-- Go `s[0:hi]` on a slice of length `len`: out of range is a run-time panic -/
+def goSlicePrefix (len : Nat) (hi : Int) : Outcome Nat :=
+  if hi < 0 || hi > len then .panic "runtime error: slice bounds out of range" else .ok hi.toNat
+
+/-- number of runes the preview keeps, for a string of `runeLen` runes -/
+def previewTruncate (runeLen : Nat) (stringTruncate : Int) : Outcome Nat :=
+  if stringTruncate != 0 && (runeLen : Int) > stringTruncate then goSlicePrefix runeLen stringTruncate
+  else .ok runeLen
+
+/-- the same with the test made on the BYTE length (seeded change S2-C13-1: "a string with fewer
+    bytes than the limit can't have more runes than it" — true, but the converse is what is needed) -/
+def previewTruncateByteTest (byteLen runeLen : Nat) (stringTruncate : Int) : Outcome Nat :=
+  if stringTruncate != 0 && (byteLen : Int) > stringTruncate then goSlicePrefix runeLen stringTruncate
+  else .ok runeLen
+
+/-- utf8.RuneCountInString / len([]rune(s)): a valid 2-, 3-, 4-byte sequence is one rune, every
+    other byte (ASCII, stray continuation, truncated or invalid lead) is one rune by itself.
+    (Overlong / surrogate encodings, which Go also counts byte by byte, do not occur in the pool.) -/
+def isCont (b : Nat) : Bool := 128 ≤ b && b < 192
+def runeCountF : Nat → List Nat → Nat
+  | 0, _ => 0
+  | _ + 1, [] => 0
+  | fuel + 1, b :: rest =>
+    match rest with
+    | c1 :: c2 :: c3 :: rest3 =>
+      if 240 ≤ b && b ≤ 244 && isCont c1 && isCont c2 && isCont c3 then 1 + runeCountF fuel rest3
+      else if 224 ≤ b && b < 240 && isCont c1 && isCont c2 then 1 + runeCountF fuel (c3 :: rest3)
+      else if 194 ≤ b && b < 224 && isCont c1 then 1 + runeCountF fuel (c2 :: c3 :: rest3)
+      else 1 + runeCountF fuel rest
+    | [c1, c2] =>
+      if 224 ≤ b && b < 240 && isCont c1 && isCont c2 then 1
+      else if 194 ≤ b && b < 224 && isCont c1 then 1 + runeCountF fuel [c2]
+      else 1 + runeCountF fuel rest
+    | [c1] => if 194 ≤ b && b < 224 && isCont c1 then 1 else 1 + runeCountF fuel rest
+    | [] => 1
+
+def runeCount (l : List Nat) : Nat := runeCountF l.length l
+
 /-! ## _stdio_read (interp.go:568-595): `buf := make([]byte, l)` with the caller's length -/
 
 /-- Go `make([]byte, n)`: a negative length or one above maxAlloc (2^48) is a run-time panic
